@@ -106,12 +106,13 @@ type Env struct {
 	bytePools map[int][]*SliceV
 	onces     map[*Cell]bool
 	hmaps     map[*Cell]*MapV
+	files     map[string][]*Term
 	shortWriteUsed bool
 	randUsed       bool
 }
 
 func newEnv() *Env {
-	return &Env{fds: map[int]*FD{}, nextFd: 100, pools: map[*Cell]*poolState{}, bytePools: map[int][]*SliceV{}, onces: map[*Cell]bool{}, hmaps: map[*Cell]*MapV{}}
+	return &Env{fds: map[int]*FD{}, nextFd: 100, pools: map[*Cell]*poolState{}, bytePools: map[int][]*SliceV{}, onces: map[*Cell]bool{}, hmaps: map[*Cell]*MapV{}, files: map[string][]*Term{}}
 }
 
 func (env *Env) newFD(kind string) *FD {
